@@ -669,6 +669,80 @@ def run(ctx):
     ctx.map(_task, [(ctx.quick, i, n) for i in range(n)])
     ctx.map(_task_limits, [0])
     ctx.map(_task_fd_sequences, [0])
+    ctx.map(_task_nested_construction, [0])
+
+
+def _task_nested_construction(_):
+    """a message constructed while another one is being constructed (a body
+    value whose attribute is computed on demand and, in computing it, emits
+    a signal): both are well-formed and every serial is fresh"""
+    from txdbus import message as M
+    fakes.reset_process_state()
+    res = core.Result()
+
+    def builders():
+        yield 'call', lambda body: M.MethodCallMessage(
+            '/p', 'M', signature='(su)', body=[body])
+        yield 'return', lambda body: M.MethodReturnMessage(
+            5, signature='(su)', body=[body])
+        yield 'signal', lambda body: M.SignalMessage(
+            '/p', 'S', 'a.b', signature='(su)', body=[body])
+        yield 'error', lambda body: M.ErrorMessage(
+            'a.b.E', 6, signature='(su)', body=[body])
+        yield 'call-variant', lambda body: M.MethodCallMessage(
+            '/p', 'M', signature='v', body=[body])
+
+    for outer_name, outer in builders():
+        for inner_name, inner in builders():
+            res.count('states')
+            res.count('evaluations')
+            res.count('transitions', 4)
+            res.count('nontrivial')
+            made = []
+
+            class Lazy:
+                dbusOrder = ['name', 'value']
+                dbusSignature = '(su)'
+                name = 'n'
+
+                @property
+                def value(self):
+                    if not made:
+                        made.append(None)
+                        made[0] = inner(['inner', 1])
+                    return 7
+            rep = {'part': 'nested', 'outer': outer_name,
+                   'inner': inner_name}
+            try:
+                before = M.MethodCallMessage('/p', 'Before')
+                o = outer(Lazy())
+                after = M.MethodCallMessage('/p', 'After')
+                msgs = [before, o] + [m for m in made if m is not None] + \
+                    [after]
+                serials = []
+                for m in msgs:
+                    p = R.parse_message(m.rawMessage)
+                    serials.append(p['serial'])
+                    if p['serial'] != m.serial:
+                        raise R.RefError('serial attribute %r, wire %r'
+                                         % (m.serial, p['serial']))
+                if len(made) != 1 or made[0] is None:
+                    raise core.HarnessError('the lazy value was not read')
+                if 0 in serials or len(set(serials)) != len(serials):
+                    res.violation(
+                        '%s/nested-construction/serial' % PROP,
+                        'a %s constructed while a %s was being constructed: '
+                        'serials (before, outer, inner, after) = %r'
+                        % (inner_name, outer_name, serials), rep, size=1)
+            except core.HarnessError:
+                raise
+            except Exception as e:
+                res.violation('%s/nested-construction/%s'
+                              % (PROP, type(e).__name__),
+                              'a %s constructed while a %s was being '
+                              'constructed: %r' % (inner_name, outer_name,
+                                                   e), rep, size=1)
+    return res
 
 
 def replay(data):
@@ -688,6 +762,8 @@ def replay(data):
                       data['order'], extra)
     elif data['part'] == 'fdseq':
         res = _task_fd_sequences(0)
+    elif data['part'] == 'nested':
+        res = _task_nested_construction(0)
     else:
         res = _task_limits(0)
     return [(s, v['what']) for s, v in res.violations.items()]
